@@ -17,6 +17,7 @@ use mc::{json, Level, Report, Value};
 use pairlib::*;
 use rayon::prelude::*;
 
+mod engine_ticks;
 mod ticks;
 
 /// Quick tier: slot-distance bound of the exhaustive "near pairs" family over `U_A` level 0.
@@ -515,6 +516,7 @@ fn main() {
 
     // ---- phase 3: patches of real engine ticks ------------------------------------------------
     ticks::run(&r, &mut t.viol_detail);
+    engine_ticks::run(&r);
 
     // ---- evidence -----------------------------------------------------------------------------
     let acc = &t.acc;
